@@ -76,7 +76,7 @@ inductive Step (s : State) (t st idx : Nat) : PC → State → Prop
   | addReserve (u : Nat) (y : Thr) : s.thr[u]? = some y → y.pc = .unborn → isParkedSt y.st = true →
       Step s t st idx .addA ((s.setPc u .embryo).setPc t (.ps0 (.add u)))
   | addLock (u : Nat) : s.lockL = none → Step s t st idx (.addL0 u) ({ s with lockL := some t }.setPc t (.addL1 u))
-  | addPush (u : Nat) : Step s t st idx (.addL1 u)
+  | addPush (u : Nat) : s.pcOf u = some .embryo → Step s t st idx (.addL1 u)
       ((({ s with list := s.list ++ [u] }.setIdx u s.list.length).setPc u .ready).setPc t (.addL2 u))
   | addUnlock (u : Nat) : Step s t st idx (.addL2 u) ({ s with lockL := none }.setPc t (.unp0 (.scope (.add u))))
   | spawnGo (u : Nat) : s.pcOf u = some .ready → Step s t st idx (.spawnGo u) ((s.setPc u (.unp0 .start)).setPc t .mut)
@@ -133,12 +133,130 @@ theorem stepAt_step {s s' : State} {t : Nat} {pc : PC} {st idx : Nat} {a : Act}
        first
        | exact Step.foRun _ _ _ _ ‹_› ‹_› hst.symm
        | exact Step.foPark _ _ _ _ ‹_› ‹_› hst.symm)
+    | (rcases ‹_ ∧ _ ∧ _› with ⟨rfl, rfl, hemb⟩
+       exact Step.addPush _ hemb)
     | (rcases ‹_ ∧ _› with ⟨rfl, rfl⟩
        first
-       | exact Step.addPush _
+       | exact Step.addPush _ ‹_›
        | exact Step.rmLoad ‹_›)
     | (rcases ‹_ ∧ _› with ⟨hpc, rfl⟩
        apply Step.panic
        exact ⟨_, _, ‹_›, hpc, by simp_all⟩))
+
+
+theorem accept_step {s s' : State} {e : Event} (h : accept s e = .ok s') :
+    ∃ pc st idx, s.thr[e.tid]? = some ⟨pc, st, idx⟩ ∧ Step s e.tid st idx pc s' := by
+  unfold accept at h
+  split at h
+  · simp at h
+  · rename_i x hx
+    obtain ⟨pc, st, idx⟩ := x
+    exact ⟨pc, st, idx, hx, stepAt_step h⟩
+
+/-! ## classes of program counters -/
+
+/-- holds `Threads::threads` -/
+def holdsL : PC → Bool
+  | .addL1 _ | .addL2 _ | .stwL1 | .opS | .armB | .fo _ _ | .wuB1 _ | .wuWait _ | .wuWoken _ | .rtS1 | .op | .rs _
+  | .disB1 | .disB2 | .stwUL | .rmL1 | .rmL1a _ | .rmL2 | .rmL3 => true
+  | _ => false
+
+/-- holds `Barrier::data` -/
+def holdsB : PC → Bool
+  | .spB1 | .spB2 | .parkB1 _ | .parkB2 _ | .unpB1 _ | .armB | .wuB1 _ | .disB1 | .disB2 => true
+  | _ => false
+
+/-- the thread is between `unpark` and `park`: it runs managed code or runtime code that may touch the heap
+(`mutating`) -/
+def runC : PC → Bool
+  | .mut | .poll0 | .pollSlow | .ps0 _ | .park0 _ | .parkS _ | .psEnd _ | .spawnNew | .addA | .spawnGo _ => true
+  | _ => false
+
+/-- registered: the thread is an element of `Threads::threads` -/
+def inList : PC → Bool
+  | .unborn | .embryo | .rmL2 | .rmL3 | .dead | .panicked => false
+  | _ => true
+
+/-- counted as running by `stop_threads` and has not yet incremented `stopped`: pcs between the state change and
+the locked increment -/
+def isPendPc : PC → Bool
+  | .parkB0 _ | .spB0 => true
+  | _ => false
+
+/-- has to report to the barrier in this round -/
+def isPend (x : Thr) : Bool := x.st == 2 || isPendPc x.pc
+
+def parkRet : Ret → Prop
+  | .scope _ | .exit => True
+  | _ => False
+
+def unpRet : Ret → Prop
+  | .scope _ | .slow | .start => True
+  | _ => False
+
+/-- what the pc says about the thread's own state byte (and the return points of park / unpark) -/
+def StOk : PC → Nat → Prop
+  | .unborn, st | .embryo, st | .rmL2, st | .rmL3, st | .dead, st => st = 1
+  | .panicked, _ => False
+  | .mut, st | .poll0, st | .ps0 _, st | .psEnd _, st | .spawnNew, st | .addA, st | .spawnGo _, st => st = 0 ∨ st = 2
+  | .park0 r, st => (st = 0 ∨ st = 2) ∧ parkRet r
+  | .pollSlow, st => st = 2
+  | .parkS r, st => st = 2 ∧ parkRet r
+  | .spB0, st | .spB1, st | .spB2, st | .spWait, st | .spWoken, st => st = 1 ∨ st = 3 ∨ st = 4
+  | .parkB0 r, st | .parkB1 r, st | .parkB2 r, st => (st = 1 ∨ st = 3) ∧ parkRet r
+  | .unp0 r, st | .unpS r, st | .unpB0 r, st | .unpB1 r, st | .unpWait r, st | .unpWoken r, st => (st = 1 ∨ st = 3) ∧ unpRet r
+  | _, st => st = 1 ∨ st = 3
+
+/-- the request bit (value 2, 3 or 4) is expected in the state byte of `x` -/
+def ReqBit (ph : Phase) (x : Thr) : Prop :=
+  inList x.pc = true ∧
+  match ph with
+  | .idle => False
+  | .req k _ => x.idx < k
+  | .oper => True
+  | .res k => k ≤ x.idx
+
+/-- what the pc of a holder of `L` says about the ghost phase, the runtime state and its registers -/
+def PhOk (ph : Phase) (rt len idx : Nat) : PC → Prop
+  | .armB => ph = .req 0 0 ∧ rt = 0
+  | .fo k r => ph = .req k r ∧ k ≤ len ∧ rt = 0
+  | .wuB1 r | .wuWait r | .wuWoken r => ph = .req len r ∧ rt = 0
+  | .rtS1 => ph = .oper ∧ rt = 0
+  | .op => ph = .oper ∧ rt = 1
+  | .rs k => ph = .res k ∧ k ≤ len ∧ rt = 0
+  | .opS => ph = .idle ∧ rt = 1
+  | .rmL1a r => ph = .idle ∧ rt = 0 ∧ r = idx
+  | .addL1 _ | .addL2 _ | .stwL1 | .disB1 | .disB2 | .stwUL | .rmL1 | .rmL2 | .rmL3 => ph = .idle ∧ rt = 0
+  | _ => True
+
+theorem countP_modify {α} (p : α → Bool) (f : α → α) {l : List α} {t : Nat} {x : α} (h : l[t]? = some x) :
+    (l.modify t f).countP p + (p x).toNat = l.countP p + (p (f x)).toNat := by
+  induction l generalizing t with
+  | nil => simp at h
+  | cons a l ih =>
+    cases t with
+    | zero =>
+      simp at h; subst h
+      simp [List.countP_cons]
+      cases p a <;> cases p (f a) <;> simp <;> omega
+    | succ t =>
+      simp at h
+      have := ih h
+      simp [List.countP_cons]
+      omega
+
+theorem getElem?_modify_self {α} (f : α → α) {l : List α} {t : Nat} {x : α} (h : l[t]? = some x) :
+    (l.modify t f)[t]? = some (f x) := by
+  rw [List.getElem?_modify, h]; simp
+
+theorem getElem?_modify_ne {α} (f : α → α) {l : List α} {t u : Nat} (h : t ≠ u) :
+    (l.modify t f)[u]? = l[u]? := by
+  rw [List.getElem?_modify]
+  cases l[u]? <;> simp [h]
+
+theorem lt_of_get {α} {l : List α} {t : Nat} {x : α} (h : l[t]? = some x) : t < l.length := by
+  rcases Nat.lt_or_ge t l.length with hl | hl
+  · exact hl
+  · rw [List.getElem?_eq_none hl] at h; simp at h
 
 end Dora.Stw
